@@ -7,7 +7,7 @@ import math
 from .common import RATE_UNIT
 from . import kernel, observe
 from .netepi import build_graph
-from .scripted import explore, run_scripted, Incomplete
+from .scripted import explore, run_scripted, Incomplete, Unmodelled
 
 SG = None  # SpecGraph, set by the check before forking
 
@@ -143,7 +143,13 @@ def run_scenario(task):
         counters["events"] += len(ev)
         return False
 
-    leaves = explore(fn_full, max_exp=max_exp, on_leaf=on_leaf, max_leaves=task.get("max_leaves", 60000), deep_is_error=True)
+    unmodelled = None
+    try:
+        leaves = explore(fn_full, max_exp=max_exp, on_leaf=on_leaf, max_leaves=task.get("max_leaves", 60000), deep_is_error=True)
+    except Unmodelled as ex:
+        unmodelled = str(ex)
+        leaves = Incomplete()
+        del problems[:]
     nevents = counters["events"]
     stats = {"nodes": 0}
     if not isinstance(leaves, Incomplete):
@@ -155,6 +161,38 @@ def run_scenario(task):
             p["cls"] = wcls
             problems.append(p)
     else:
+        recs = []
+
+    # findings that depend on the scripted source modelling the implementation's use of random numbers are settled
+    # with the real random source (harness/confirm.py)
+    def real(seed):
+        import random
+        r0 = sum(x[1] for x in succ(st0)) * RATE_UNIT * scale
+        kwr = dict(kw)
+        T = float("inf")
+        if sis or horizon is not None:
+            T = tmin + (4.0 / r0 if r0 > 0 else 1.0)
+            kwr["tmax"] = T
+        random.seed(seed)
+        try:
+            sim = f(G, tau, gam, initial_infecteds=list(I0), return_full_data=True, **kwr)
+            obs = observe.full_data_observation(sim, nodes)
+        except Exception as ex:
+            return {"error": ex}
+        ev = observe.epidemic_events(obs, nodes)
+        if obs["trans"] is None:
+            flags["nosrc"] = True
+            ev = [("T", None, e[2]) if e[0] == "T" else e for e in ev]
+        times = [c[0] for c in observe.changes(obs, nodes)]
+        return {"events": list(zip(times, ev)), "tmin": tmin, "tmax": T, "error": None}
+
+    from . import walk as _walk
+    from . import confirm as _confirm
+    flags = {}
+    if unmodelled is not None or _confirm.needs_confirmation(problems):
+        real(-1)          # probe: is the infector observable in this implementation?
+    problems, settled = _walk.settle(problems, unmodelled, real, st0, succ_nosrc if flags.get("nosrc") else succ, RATE_UNIT * scale, wcls)
+    if settled is not None and settled["unmodelled"]:
         recs = []
 
     # array mode under the same scripts: same draws, rows = counts along the history
@@ -190,4 +228,4 @@ def run_scenario(task):
             problems.append({"kind": "exception:%s" % type(la.error).__name__, "cls": cls0,
                              "detail": "%s(return_full_data=False) raised %r" % (entry, la.error), "script": []})
     return {"problems": problems, "leaves": len(leaves), "events": nevents, "nodes": stats["nodes"],
-            "arr": narr, "entry": entry, "notes": sorted(notes)}
+            "arr": narr, "entry": entry, "notes": sorted(notes), "settled": settled}
